@@ -29,7 +29,7 @@ LEVEL_NOTE = ('Photometry values from a finite alphabet (fixed + seed-derived); 
 RULE = ("cases: (mode, grid, n, chunk of flag vectors); executions: ~12 Fitter.fit calls per vector (base, 4 junk values, 5 limit variants, flag-4 rewrite), "
         "each compared on every model; non-trivial = distinct (mode, grid, flag vector) inside the non-singular domain that contain an ignored point, a limit or a flag-1 point")
 ASSUMPTIONS = ["finite value alphabets", "singular regressions are outside the quantifier"]
-REQUIRED_CLASSES = ['integer-typed-photometry', 'limit-exactly-on-model', 'junk-with-remove-resolved', 'limits-different-confidences', 'reflag-in-place', 'junk-under-0', 'junk-under-9', 'nonpositive-junk-under-9', 'limit-lower-violated', 'limit-upper-violated', 'limit-not-violated',
+REQUIRED_CLASSES = ['grid-of-hundreds-of-models', 'integer-typed-photometry', 'limit-exactly-on-model', 'junk-with-remove-resolved', 'limits-different-confidences', 'reflag-in-place', 'junk-under-0', 'junk-under-9', 'nonpositive-junk-under-9', 'limit-lower-violated', 'limit-upper-violated', 'limit-not-violated',
                     'conf0-equals-flag0', 'conf1-violated-1e30', 'flag4-equivalence', 'mode-2d', 'mode-3d', 'singular-counted']
 TIMEOUT = {'quick': 300, 'thorough': 1800}
 
@@ -50,6 +50,12 @@ def setup(tier, seed):
                 for i in range(0, len(vecs), CHUNK):
                     out.append({'mode': mode, 'grid': grid, 'n': n, 'first': i, 'count': min(CHUNK, len(vecs) - i)})
     out.append({'mode': 'tie', 'grid': 0, 'n': 3, 'first': 0, 'count': 0})
+    # scale: grids of a few hundred models (penalties and ignored bands for rows beyond 127 / 255), three-band vectors in chunks of 54
+    for mode in ('2d', '3d'):
+        for i in ((0, 54, 108, 162) if tier == 'quick' else range(0, 216, 54)):
+            if tier == 'quick' and mode == '3d' and i in (0, 162):
+                continue
+            out.append({'mode': mode, 'grid': 0, 'n': 3, 'first': i, 'count': 54, 'big': 300 if tier == 'quick' else 600})
     return {'tier': tier, 'seed': seed, 'cases': out, 'psets': 2 if tier == 'quick' else 3}
 
 
@@ -121,11 +127,14 @@ def run_case(ctx, case, rec, d):
     n = case['n']
     bands = BANDSETS[n]
     mode = case['mode']
-    names = fc.names_for(5)
+    nmod = case.get('big', 5)
+    names = fc.names_for(nmod)
+    if nmod > 256:
+        rec.cls('grid-of-hundreds-of-models')
     k = fc.law_k('power', [fc.BAND_WAV[b] for b in bands])
     avlo, avhi = (0.0, 8.0)
     if mode == '2d':
-        flux_all = fc.grid2d(seed * 10 + 3 + case['grid'], n_models=5, bands=fc.ALL_BANDS, special=False)
+        flux_all = fc.grid2d(seed * 10 + 3 + case['grid'], n_models=nmod, bands=fc.ALL_BANDS, special=False)
         cols = [fc.ALL_BANDS.index(b) for b in bands]
         spec = {'fmt': 'v1' if case['grid'] == 0 else 'v2', 'names': names, 'bands': fc.ALL_BANDS, 'flux': flux_all}
         md = fc.build_package(d, 'pkg', spec)
@@ -134,7 +143,7 @@ def run_case(ctx, case, rec, d):
         base_of = lambda p, ps: flux_all[p, cols] * 10 ** (1.5 * k) * 3.0
         rec.cls('mode-2d')
     else:
-        ap, tables = fc.grid3d(seed * 10 + 5 + case['grid'], n_models=5, n_ap=4, bands=fc.ALL_BANDS)
+        ap, tables = fc.grid3d(seed * 10 + 5 + case['grid'], n_models=nmod, n_ap=4, bands=fc.ALL_BANDS)
         spec = {'fmt': 'v1' if case['grid'] == 0 else 'v2', 'names': names, 'bands': fc.ALL_BANDS, 'apertures': ap, 'tables': tables, 'logd_step': 0.2}
         # one model whose surface brightness rises outwards: resolved at most trial distances (matters for remove_resolved)
         tables[4] = tables[4][:, :1] * np.array([1.0, 1e2, 1e4, 1e6])[None, :]
@@ -153,7 +162,7 @@ def run_case(ctx, case, rec, d):
         base_of = lambda p, ps: 10 ** (logm3[p, (ps * 2 + 1) % len(grid), :] + 1.5 * k)
         rec.cls('mode-3d')
     vecs = list(itertools.product(fc.FLAGS, repeat=n))[case['first']:case['first'] + case['count']]
-    cfg = (mode, case['grid'], n)
+    cfg = (mode, case['grid'], n, nmod)
     sampled = False
     for fv in vecs:
         fitted = [j for j, v in enumerate(fv) if v in (1, 4)]
@@ -162,7 +171,7 @@ def run_case(ctx, case, rec, d):
         else:
             nonsing = any(abs(k[j]) > 0.02 for j in fitted)
         for ps in range(ctx['psets']):
-            planted = (ps + sum(fv)) % 5
+            planted = (ps + sum(fv)) % 5 if nmod == 5 else (ps * 97 + sum(fv) * 31) % nmod
             fl, er = fc.photometry(fv, base_of(planted, ps), ps if ps < 2 else ps + 4 * seed, conf_rot=sum(fv) + ps)
             for j, v in enumerate(fv):
                 if v in (2, 3) and er[j] in (0.0, 1.0):
